@@ -14,6 +14,15 @@ CHECKS = {
              "validates every recorded conversion (plus exhaustive 8/16-bit sources, +-4096 neighbourhoods, random values) against Clamp and monotonicity.",
         note="Trusted: TLC, math/big projection of inputs/outputs to 24-bit limbs, int/uint being 64-bit. 32-bit sources are not swept exhaustively; NaN excluded.",
         technique="TLA+ spec (limb arithmetic) + TLC lemma check; TLC-enumerated input classes; TLC trace validation of recorded conversions"),
+    "C11": dict(
+        category="model_checking", design_ref="DESIGN.md 5/C11",
+        text="ErrorKinds.tla transcribes at text level (TLC string operators) the constructors, the line parser, the 30-way first-match kind recogniser, "
+             "Serialise and Deserialise; TLC checks IsKind, context-cause-never-reclassified, round-trip kind and reason, and that every kind text is recognised "
+             "as itself, for every chain of depth <=1 (<=2 thorough) over 30 kinds x 6 messages; the emitted chains (and simulated ones to depth 4) are built with the "
+             "real constructors and round-tripped in-process and through a child process; random chains / joins of 1..4 / the converters' backend-condition table are "
+             "validated by a trace specification.",
+        note="Trusted: TLC, recognition through commonerrors.Any on the 30 sentinels, single-line messages; the converter table is the reading of the three converters' documented cases.",
+        technique="TLA+ text-level transcription + TLC exhaustive; behaviour replay incl. process boundary; TLC trace validation"),
     "C12": dict(
         category="model_checking", design_ref="DESIGN.md 5/C12",
         text="Four TLA+ models of the runners as coded (channels, select, contexts, RW mutex) are checked exhaustively by TLC for deadlock freedom, "
